@@ -593,6 +593,18 @@ class Flow:
                     given = {**dict(ctor[3]), **given} if len(ctor) > 3 else given
                     if all(fl_ in given for fl_ in fields):
                         return ("record", ctor[1], tuple((fl_, given[fl_]) for fl_ in fields))
+        # functools.reduce(helper, [e1, e2, ..], init) with `helper` a small module-level function (func_resolver): the left fold written
+        # out, helper(helper(init, e1), e2) .., each application read as the value the helper returns (simp does the same for a lambda)
+        if ((isinstance(f, ast.Name) and f.id == "reduce" and f.id not in self.env) or (isinstance(f, ast.Attribute) and f.attr == "reduce" and ast.unparse(f.value) == "functools")) \
+                and self.func_resolver is not None and len(args) == 3 and not kws and args[0][0] == "global" and self._depth < 2:
+            seq = simp(args[1])
+            callee = self.func_resolver(args[0][1])
+            if callee is not None and callee is not self.func and seq[0] in ("list", "tuple") and len(seq[1]) <= 16 and not any(e[0] == "star" for e in seq[1]):
+                acc = args[2]
+                for e in seq[1]:
+                    acc = self._inline(callee, (acc, e), {}, bare=True) if acc is not None else None
+                if acc is not None:
+                    return acc
         if isinstance(f, ast.Name) and self.func_resolver is not None and f.id not in self.env and self._depth < 2 and all(k != "**" for k, _ in kws):
             callee = self.func_resolver(f.id)
             if callee is not None and callee is not self.func:
